@@ -20,8 +20,8 @@ EXPLANATION = ('For every reachable function the interpreter records each MIR As
                'and in write_to_slice / write_cols_to_slice no panic site may be reachable after a write to the destination (the documented '
                'length panic precedes any store, R-ATOMIC).')
 
-CONFIGS_QUICK = ['sse2', 'scalar']
-CONFIGS_THOROUGH = ['sse2', 'sse2-rel', 'scalar', 'coresimd', 'libm', 'neon', 'wasm32']
+CONFIGS_QUICK = ['sse2', 'scalar', 'coresimd', 'neon', 'wasm32']
+CONFIGS_THOROUGH = ['sse2', 'sse2-rel', 'sse2-fma', 'sse41', 'scalar', 'coresimd', 'libm', 'neon', 'wasm32']
 
 SLICE_FNS = {'from_slice', 'write_to_slice', 'from_cols_slice', 'write_cols_to_slice'}
 INDEX_FNS = {'index', 'index_mut', 'col', 'col_mut', 'row', 'test', 'set', 'from_mat3_minor', 'from_mat4_minor',
